@@ -410,6 +410,10 @@ pub fn xml_leaves(doc: &str) -> Result<Vec<(String, String)>, String> {
         } else {
             let u = c as u32;
             // XML 1.1: restricted characters must not appear literally
+            // the sequence that ends a CDATA section must not appear in character data (XML 2.4)
+            if c == '>' && i >= 2 && b[i - 1] == ']' && b[i - 2] == ']' {
+                return Err("']]>' appears literally in character data".into());
+            }
             let c0 = u == 0 || (0x1 ..= 0x8).contains(&u) || (0xB ..= 0xC).contains(&u) || (0xE ..= 0x1F).contains(&u);
             if c0 || (version11 && ((0x7F ..= 0x84).contains(&u) || (0x86 ..= 0x9F).contains(&u))) {
                 return Err(format!("restricted character U+{u:04X} appears literally"));
